@@ -42,9 +42,14 @@ pub struct Dot { pub nodes: Vec<(String, String)>, pub edges: Vec<(String, Strin
 /// a reader for exactly what the `dot` crate writes: `    id[label="…"];` and `    a -> b[label="…"];`
 pub fn read_dot(text: &str) -> Option<Dot> {
     let mut d = Dot { nodes: vec![], edges: vec![] };
+    let mut closed = false;
     for line in text.lines() {
         let l = line.trim();
-        if l.starts_with("digraph") || l == "}" || l.is_empty() { continue; }
+        if l.is_empty() { continue; }
+        // nothing may follow the closing brace
+        if closed { return None; }
+        if l == "}" { closed = true; continue; }
+        if l.starts_with("digraph") { continue; }
         let lb = l.find("[label=\"")?;
         if !l.ends_with("\"];") { return None; }
         let head = &l[..lb];
@@ -162,6 +167,61 @@ pub fn c14(out: &mut dyn Write, tier: &str, rng: &mut Rng, st: &mut Stats) {
             }
             let _ = bad;
             writeln!(out, "C14|bdd|{}|{}|{}|{}", dump, root, names_field, fields.join("|")).unwrap();
+            // the same exports written by the binary (-d FILE with one filter, -p FILE), into files that already
+            // exist and usually hold a longer earlier export: the file must then hold exactly the new graph
+            if !exotic && i % 10 == 0 {
+                let scratch = std::env::var("VERIF_SCRATCH").unwrap_or_else(|_| ".".to_string());
+                let dpath = format!("{}/c14_cli.dot", scratch);
+                let tpath = format!("{}/c14_cli_tree.dot", scratch);
+                if (i / 10) % 3 == 0 {
+                    let stale = "digraph g {\n    n_0[label=\"Xor\"];\n    n_1[label=\"stale\"];\n    n_0 -> n_1[label=\"L\"];\n".repeat(40) + "}\n";
+                    let _ = std::fs::write(&dpath, &stale);
+                    let _ = std::fs::write(&tpath, &stale);
+                }
+                let which = (i / 10) % 3;
+                let (flt, fname) = [(TruthTableEntry::Any, "any"), (TruthTableEntry::True, "true"), (TruthTableEntry::False, "false")][which];
+                let bin = format!("{}/rsbdd", std::env::var("VERIF_BIN_DIR").unwrap_or_default());
+                let args: Vec<String> = vec![format!("--evaluate={}", text), "-d".into(), dpath.clone(), "-p".into(), tpath.clone(), "-f".into(), fname.into()];
+                let (class, _so, _se) = crate::parse::run_capture(&bin, &args, &[], 20);
+                st.hit(&format!("cli.exit.{}", class));
+                if class == "ok" {
+                    // -p
+                    let tree_text = std::fs::read_to_string(&tpath).unwrap_or_default();
+                    let names_plain = pf.vars.iter().map(|v| format!("{}:{}", hex(v.name.as_bytes()), v.id)).collect::<Vec<_>>().join(",");
+                    match read_dot(&tree_text) {
+                        Some(d) => {
+                            let strip = |id: &str| id.strip_prefix("n_").unwrap_or(id).to_string();
+                            let ns = d.nodes.iter().map(|(id, l)| format!("{}={}", strip(id), hex(l.as_bytes()))).collect::<Vec<_>>().join(",");
+                            let es = d.edges.iter().map(|(a, b, l)| format!("{}>{}:{}", strip(a), strip(b), hex(l.as_bytes()))).collect::<Vec<_>>().join(",");
+                            writeln!(out, "C14|tree|{}|{}|{}|{}", ser_real(&pf.bdd), names_plain, ns, es).unwrap();
+                        }
+                        None => { writeln!(out, "C14|tree|{}|{}|PANIC-OR-UNREADABLE|", ser_real(&pf.bdd), names_plain).unwrap(); }
+                    }
+                    // -d: the file's graph, its node ids mapped to the in-process ones by structure
+                    let file_text = std::fs::read_to_string(&dpath).unwrap_or_default();
+                    let inproc = { let g = BDDGraph::new(&bdd, flt); let mut buf: Vec<u8> = Vec::new(); let _ = g.render_dot(&mut buf); read_dot(&String::from_utf8_lossy(&buf)) };
+                    fn skey(d: &Dot, id: &str, depth: usize) -> String {
+                        if depth > 64 { return "DEEP".into(); }
+                        let lab = d.nodes.iter().find(|n| n.0 == id).map(|n| n.1.clone()).unwrap_or_else(|| "?".into());
+                        let kids: Vec<String> = ["T", "F"].iter().map(|w| d.edges.iter().find(|e| e.0 == id && e.2 == *w).map(|e| skey(d, &e.1, depth + 1)).unwrap_or_else(|| "-".into())).collect();
+                        format!("{}({},{})", lab, kids[0], kids[1])
+                    }
+                    let mut cli_fields = fields.clone();
+                    match (read_dot(&file_text), inproc) {
+                        (Some(fd), Some(id)) => {
+                            let keymap: HashMap<String, String> = id.nodes.iter().map(|n| (skey(&id, &n.0, 0), n.0.clone())).collect();
+                            let tr = |x: &str| -> String { keymap.get(&skey(&fd, x, 0)).map(|y| rename_id(y, &pn)).unwrap_or_else(|| format!("UNKNOWN_{}", x)) };
+                            cli_fields[2 * which] = fd.nodes.iter().map(|(x, l)| format!("{}={}", tr(x), hex(l.as_bytes()))).collect::<Vec<_>>().join(",");
+                            cli_fields[2 * which + 1] = fd.edges.iter().map(|(a, b, l)| format!("{}>{}:{}", tr(a), tr(b), hex(l.as_bytes()))).collect::<Vec<_>>().join(",");
+                        }
+                        _ => { cli_fields[2 * which] = "PANIC".into(); cli_fields[2 * which + 1] = String::new(); }
+                    }
+                    writeln!(out, "C14|bdd|{}|{}|{}|{}", dump, root, names_field, cli_fields.join("|")).unwrap();
+                    st.hit("cli.export");
+                } else {
+                    writeln!(out, "C14|tree|{}|{}|PANIC-OR-UNREADABLE|", ser_real(&pf.bdd), names_field).unwrap();
+                }
+            }
             st.hit(if bdd.is_const() { "bdd.const" } else { "bdd.choice" });
         }
         crate::watchdog::leave();
